@@ -84,6 +84,28 @@ Section Read.
     exists (rev t), l. apply rev_cons_snoc. exact Er.
   Qed.
 
+  (* why the theorems carry [lenN bs < two64] (true of every Go slice): on a list
+     of 2^64 + 38 or more elements a section length of 2^64-1 passes the
+     in-file check and then wraps the model's uint64 end offset below the start
+     offset; the slice expression bs[38:37] is a panic *)
+  Lemma huge_input_panics v (bs : bytes) all t ss m :
+    two64 + 38 <= lenN bs ->
+    sections_fit [(sec_index, two64 - 1); (sec_responses, 0)] 38 (lenN bs) = true /\
+    load_sections x509_ok v bs all ((sec_index, two64 - 1) :: t) 38 ss m = Panic.
+  Proof.
+    intros Hbig. split.
+    - apply sections_fit_spec; [unfold two64 in Hbig; lia|].
+      cbn [sum_lens]. unfold two64 in *. lia.
+    - rewrite load_sections_cons.
+      change (known_section sec_index) with true.
+      change (bytes_eqb sec_index sec_responses) with false. cbn [negb]. cbv zeta.
+      change (w64 (38 + (two64 - 1))) with 37.
+      destruct (N.leb_spec (lenN bs) 38) as [X|_]; [unfold two64 in Hbig; lia|].
+      destruct (N.leb_spec (lenN bs) 37) as [X|_]; [unfold two64 in Hbig; lia|].
+      destruct (splitN_total bs 38 ltac:(unfold two64 in Hbig; lia)) as [a [b E]].
+      rewrite E. reflexivity.
+  Qed.
+
   (* an accepted file has pairwise distinct section names *)
   Theorem accepted_sections_distinct (bs : bytes) v m :
     lenN bs < two64 -> load_metadata x509_ok bs = Ok (v, m) ->
